@@ -9,7 +9,11 @@ vt=/tmp/vtry.$tag
 made_wt=""
 if [ -d "$src" ]; then wt=$(realpath "$src"); else
   wt=/tmp/oxwt.$tag
-  git -C /repo worktree add -q --detach "$wt" HEAD || exit 2
+  # a seeded patch that conflicts with a later fix: commit names the /repo commit it applies to in its meta.json
+  base=HEAD
+  mj="$(dirname "$(realpath "$src")")/meta.json"
+  [ -f "$mj" ] && b=$(python3 -c "import json,sys; print(json.load(open(sys.argv[1])).get('applies_to',''))" "$mj" 2>/dev/null) && [ -n "$b" ] && base=$b
+  git -C /repo worktree add -q --detach "$wt" $base || exit 2
   git -C "$wt" apply "$(realpath "$src")" 2>/dev/null || git -C "$wt" apply -3 "$(realpath "$src")" || { git -C /repo worktree remove --force "$wt"; exit 2; }
   made_wt=1
 fi
